@@ -241,6 +241,7 @@ def main():
     ap.add_argument("--out", default=os.path.join(VERIF, "mutation_sweep"))
     ap.add_argument("--files", default="")
     ap.add_argument("--ops", default="", help="only these operators (comma separated)")
+    ap.add_argument("--cap", type=int, default=0, help="at most this many mutants per (file, operator); default count/25")
     ap.add_argument("--root", default="/tmp/msweep")
     ap.add_argument("--seeded", action="store_true", help="re-check the hand-made seeded changes of /verif/seeded instead of sampling mechanical mutants")
     a = ap.parse_args()
@@ -260,7 +261,7 @@ def main():
     picked, per = [], {}
     for s in sites:
         k = (s["file"], s["op"])
-        if per.get(k, 0) >= max(2, a.count // 25):
+        if per.get(k, 0) >= (a.cap or max(2, a.count // 25)):
             continue
         per[k] = per.get(k, 0) + 1
         picked.append(s)
